@@ -2,6 +2,7 @@ package harness
 
 import (
 	"bufio"
+	"bytes"
 	"encoding/json"
 	"fmt"
 	"io"
@@ -14,6 +15,7 @@ import (
 	"time"
 
 	"asherahverif/doubles"
+	"asherahverif/ref"
 	"asherahverif/shim/vsched"
 )
 
@@ -396,7 +398,59 @@ func CheckK(prop string, witnesses []string) func(r *Report) {
 			kr := kBFS(cfg, prop, numWorkers(), r.Deadline)
 			r.AddK(kr, witnesses)
 		}
+		if prop == "C01" {
+			c01Large(r)
+		}
 	}
+}
+
+// c01Large is the fixed mini-run for large payloads (1 MiB and 5 MiB + 1): same session, another factory, the
+// reference decryptor, for the default and the no-cache policy.
+func c01Large(r *Report) {
+	for _, spec := range []PolicySpec{SpecDefault, SpecNoCache} {
+		for _, size := range []int{1 << 20, 5<<20 + 1} {
+			resetGlobals()
+			w := NewWorld()
+			f := w.NewFactory(spec)
+			s, _ := f.GetSession("big")
+			pl := make([]byte, size)
+			for i := range pl {
+				pl[i] = byte(i*7 + i>>8)
+			}
+			orig := append([]byte(nil), pl...)
+			rec, err := s.Encrypt(ctx, pl)
+			name := fmt.Sprintf("large-%s-%d", spec.Name, size)
+			bad := func(sig, format string, a ...interface{}) {
+				r.Viols = append(r.Viols, Viol{Property: "C01", Harness: "C01/large", Sig: sig + "@" + name, Msg: fmt.Sprintf(format, a...), Ops: []string{name}})
+			}
+			if err != nil {
+				bad("large-encrypt-failed", "Encrypt of %d bytes: %v", size, err)
+				continue
+			}
+			if !bytes.Equal(pl, orig) {
+				bad("payload-modified", "Encrypt modified a %d byte payload", size)
+			}
+			if out, err := s.Decrypt(ctx, *rec); err != nil || !bytes.Equal(out, orig) {
+				bad("large-decrypt", "same-session decrypt of %d bytes: %v", size, err)
+			}
+			f2 := w.NewFactory(SpecDefault)
+			s2, _ := f2.GetSession("big")
+			if out, err := s2.Decrypt(ctx, *cloneDRR(rec)); err != nil || !bytes.Equal(out, orig) {
+				bad("large-decrypt-other-factory", "other-factory decrypt of %d bytes: %v", size, err)
+			}
+			if out, err := ref.Decrypt(tableOf(w.MS), w.KMS.Unwrap, toRefRow(rec)); err != nil || !bytes.Equal(out, orig) {
+				bad("large-decrypt-reference", "reference decrypt of %d bytes: %v", size, err)
+			}
+			s2.Close()
+			f2.Close()
+			s.Close()
+			f.Close()
+			r.Evaluations += 4
+			r.Transitions += 4
+			r.TracesValidated += 4
+		}
+	}
+	r.Notes = append(r.Notes, "large payloads: 1 MiB and 5 MiB+1 encrypted and decrypted by the same session, another factory and the reference (default and no-cache policy)")
 }
 
 // AddK folds a BFS result into the report.
